@@ -4,6 +4,7 @@ CONSTANTS
   MaxT = 12
   MaxC = 3
   Mode = "Handled"
+  QueueOrder = "perproducer"
   Configs <- TraceConfigs
 INVARIANT TypeOK
 INVARIANT Positions
